@@ -58,6 +58,18 @@ mut("C01", "poller-skips-removals", PO, "                change.removed,\n      
 mut("C01", "poller-skips-modified", PO, "                change.removed,\n                change.modified,", "                change.removed,\n                Default::default(),")
 mut("C01", "diff-direction-swapped", PO, "        modified: modified\n            .into_iter()", "        modified: removed.clone()\n            .into_iter()")
 mut("C01", "last-updated-not-bumped-on-del", AC, "        self.state\n            .delete_with_source(msg.source, msg.doc.id, msg.doc.last_updated);\n        self.inc_change_timestamp().await;", "        self.state\n            .delete_with_source(msg.source, msg.doc.id, msg.doc.last_updated);")
+# --- C01 part broken-and-big-repairs (failed exchanges, more than one fetch, more than ten keyspaces)
+mut("C01", "failed-sync-recorded-as-done", PO, """                    "Failed to sync with node."
+                );
+            } else {
+                keyspace_tracker.set_keyspace(""", """                    "Failed to sync with node."
+                );
+            }
+            {
+                keyspace_tracker.set_keyspace(""")
+mut("C01", "only-first-fetch-chunk", PO, "        .chunks(MAX_NUMBER_OF_DOCS_PER_FETCH)\n", "        .chunks(MAX_NUMBER_OF_DOCS_PER_FETCH)\n        .take(1)\n")
+mut("C01", "fetch-chunks-exact", PO, "        .chunks(MAX_NUMBER_OF_DOCS_PER_FETCH)\n", "        .chunks_exact(MAX_NUMBER_OF_DOCS_PER_FETCH.min(modified.len().max(1)))\n")
+mut("C01", "at-most-ten-keyspaces-per-poll", PO, "    for keyspace in diff {\n        let permits = permits.clone();", "    for keyspace in diff.into_iter().take(MAX_CONCURRENT_REQUESTS) {\n        let permits = permits.clone();")
 # --- C02
 mut("C02", "F11-reverted-set", AC, "        docs.retain(|doc| seen_ids.insert(doc.id()));", "        docs.retain(|doc| seen_ids.insert(doc.id()) || true);")
 mut("C02", "bulk-error-folds-all", AC, "                .filter(|entry| successful_ids.contains(&entry.0));\n\n            for (doc_id, ts) in successful_entries {\n                self.state.insert_with_source", "                .filter(|entry| successful_ids.contains(&entry.0) || true);\n\n            for (doc_id, ts) in successful_entries {\n                self.state.insert_with_source")
